@@ -36,7 +36,7 @@ func (*c04) Rule() string {
 }
 func (*c04) Assumptions() []string {
 	return []string{
-		"inputs are at most 64 KiB",
+		"inputs are at most 64 KiB, except in the family of very large inputs (0.5-8 MB: deep nesting of every bracket/statement form, operator and postfix chains, runs of comments)",
 		"non-termination is decided by the driver's watchdog (90 s without progress on one case of 40 inputs that normally take milliseconds)",
 		"custom Importables that violate their interface contract (returning neither an Object nor []byte nor an error) are outside the claim",
 	}
@@ -410,8 +410,91 @@ func c04ImportableObjects() []tengo.Object {
 	}
 }
 
+// c04Huge: inputs of several megabytes whose nesting (or run of comments) is far deeper than any recursion budget.
+// The 64 KiB bound of the other families does not apply here. Every entry point must come back with an error (or a
+// result): an unbounded recursion shows as "fatal error: stack overflow" of the worker, which the driver reports.
+func (c *c04) huge(r *fw.Rec, rng *rand.Rand) {
+	n := 150000 + rng.Intn(250000)
+	rep := strings.Repeat
+	shapes := []struct{ name, src string }{
+		{"parentheses", "x := " + rep("(", n) + "1" + rep(")", n)},
+		{"array literals", "x := " + rep("[", n) + "1" + rep("]", n)},
+		{"unclosed parentheses", "x := " + rep("(", n)},
+		{"unclosed map literals", "x := " + rep("{a: ", n)},
+		{"unary operators", "x := " + rep("- ", n) + "1"},
+		{"not operators", "x := " + rep("!", n) + "true"},
+		{"nested if", rep("if true { ", n/4) + "x := 1" + rep(" }", n/4)},
+		{"else-if chain", rep("if false { } else ", n/2) + "{ x := 1 }"},
+		{"nested function literals", "x := " + rep("func() { return ", n/4) + "1" + rep(" }", n/4)},
+		{"nested calls", "x := " + rep("f(", n) + "1" + rep(")", n)},
+		{"ternary chain", "x := " + rep("true ? 1 : ", n/2) + "1"},
+		{"right-nested binary", "x := " + rep("1 + (", n/2) + "1" + rep(")", n/2)},
+		{"left-deep binary chain", "x := 1" + rep(" + 1", n)},
+		{"selector chain", "a := {}; x := a" + rep(".b", n/4)},
+		{"index chain", "a := []; x := a" + rep("[0]", n/4)},
+		{"call chain", "f := func() { return f }; x := f" + rep("()", n/4)},
+		{"line comments", rep("//\n", 3*n) + "x := 1"},
+		{"block comments", rep("/**/", 3*n) + "x := 1"},
+		{"comments after a value", "x := 1" + rep(" //\n", 2*n)},
+		{"nested for", rep("for { ", n/4) + "break" + rep(" }", n/4)},
+		{"error(immutable(...))", "x := " + rep("error(immutable(", n/2) + "1" + rep("))", n/2)},
+		{"import chain text", "x := " + rep("import(", n) + "\"m\"" + rep(")", n)},
+	}
+	sh := shapes[rng.Intn(len(shapes))]
+	src := []byte(sh.src)
+	detail := map[string]interface{}{"shape": sh.name, "repetitions": n, "input_bytes": len(src), "input_head": trunc(sh.src, 80)}
+	for _, entry := range []string{"ParseFile", "Script.Compile", "module body"} {
+		err := safely(func() error {
+			switch entry {
+			case "ParseFile":
+				fs := parser.NewFileSet()
+				sf := fs.AddFile("(main)", -1, len(src))
+				_, e := parser.NewParser(sf, src, nil).ParseFile()
+				return e
+			case "Script.Compile":
+				_, e := tengo.NewScript(src).Compile()
+				return e
+			default:
+				ms := tengo.NewScript([]byte("m := import(\"mod\")\n"))
+				mm := tengo.NewModuleMap()
+				mm.AddSourceModule("mod", src)
+				ms.SetImports(mm)
+				_, e := ms.Compile()
+				return e
+			}
+		})
+		r.Eval()
+		if p, ok := isPanic(err); ok {
+			detail["entry"] = entry
+			detail["panic"] = p.Error()
+			detail["stack"] = trunc(p.stack, 3000)
+			r.Violate("panic:huge:"+entry, "an entry point panicked on a very large input", detail)
+			return
+		}
+		if err == nil {
+			r.Inc("huge:accepted:" + entry)
+		} else {
+			r.Inc("huge:rejected:" + entry)
+		}
+	}
+	r.Inc("huge-inputs")
+	r.Inc("huge:" + sh.name)
+	// reasonable depths must still be accepted
+	for _, ok := range []string{"x := " + rep("(", 2000) + "1" + rep(")", 2000), rep("if true { ", 500) + "x := 1" + rep(" }", 500), "x := 1" + rep(" + 1", 5000), "x := " + rep("[", 1500) + "1" + rep("]", 1500)} {
+		if _, e := tengo.NewScript([]byte(ok)).Compile(); e != nil {
+			r.Violate("huge:reasonable-depth-rejected", "a program of moderate nesting depth is rejected", map[string]interface{}{"input_head": trunc(ok, 60), "error": trunc(e.Error(), 200)})
+			return
+		}
+	}
+	r.Distinct("huge", sh.name, fmt.Sprint(n))
+}
+
 func (c *c04) RunCase(r *fw.Rec, cs fw.Case) {
 	rng := cs.Rng("c04")
+	if cs.Index%250 == 249 {
+		c.huge(r, rng)
+		return
+	}
 	var base []string
 	for i := 0; i < 3; i++ {
 		opts := gen.Options{MaxStmts: 3 + rng.Intn(12), MaxDepth: 2 + rng.Intn(2), ControlHeavy: rng.Intn(3) == 0, ClosureHeavy: rng.Intn(3) == 0}
@@ -459,7 +542,7 @@ func (c *c04) RunCase(r *fw.Rec, cs fw.Case) {
 
 func (c *c04) Finish(m *fw.Merged, tier string) {
 	for _, k := range []string{"input:valid", "input:mutated", "input:raw", "input:directed", "accepted:ParseFile", "rejected:ParseFile", "accepted:Script.Compile", "rejected:Script.Compile",
-		"rejected:Compiler.Compile", "accepted:module body", "rejected:module body", "accepted:custom Importables", "rejected:custom Importables",
+		"rejected:Compiler.Compile", "accepted:module body", "rejected:module body", "accepted:custom Importables", "rejected:custom Importables", "huge-inputs",
 		"importable-object:map", "importable-object:array", "importable-object:int", "importable-object:undefined", "importable-object:user-function:uf"} {
 		if m.Counters[k] == 0 {
 			m.Fail("never observed: " + k)
